@@ -38,7 +38,8 @@ def in_bounds(r, cfg):
 def main(ctx, pairs=None, budget_list=None, hist=None, selector=in_bounds, label="C03", deep_mems=160):
     ev = ctx.ev
     quick = ctx.quick
-    pairs = pairs or (logixlib.TYPE_PAIRS[:5] if quick else logixlib.TYPE_PAIRS)
+    # quick: the first five pairs (C03 itself also the pair holding a tag of the widest unsigned type); thorough: all
+    pairs = pairs or ((logixlib.TYPE_PAIRS[:5] + ([("LINT", "ULINT")] if label == "C03" else [])) if quick else logixlib.TYPE_PAIRS)
     wd = core.workdir()
     rng = random.Random(ctx.seed)
     ev.rule = ("cases: (memory, request) pairs -- memories = every state reachable by <= 1 (quick) / 2 (thorough) "
